@@ -234,6 +234,50 @@ func drawAction(t *rapid.T, w *sim.World, s swarm, o simOpts) sim.Action {
 	return sim.Action{K: "run", N: 1}
 }
 
+// applyLossProfiles: for every live correct member a drawn set of message kinds (none / COMMIT / PREPARE+COMMIT / PREPARE / all)
+// is held from now on; the caller later drops what was held (lost for good) and releases the rules.
+func applyLossProfiles(t *rapid.T, w *sim.World) {
+	for _, i := range w.CorrectLive() {
+		lost := rapid.SampledFrom([]int{0, 0, 1 << sim.UC, 1<<sim.UP | 1<<sim.UC, 1 << sim.UP, 31}).Draw(t, "lost")
+		if lost != 0 {
+			w.Apply(sim.Action{K: "hold", Hold: &sim.HoldRule{Types: uint8(lost), To: 1 << uint(i), From: 0xffff}})
+		}
+	}
+}
+
+// assistedViewChanges: rounds of "the members at the lowest position time out; the Byzantine members vote for that view too
+// (plain or with the best proof they can assemble), or lead it with a preset NEW_VIEW; the network runs; the Byzantine members
+// follow the correct leader's proposal like correct members would" - view changes that actually complete with Byzantine help.
+func assistedViewChanges(t *rapid.T, w *sim.World, as int, rounds int) {
+	full := uint16(1<<uint(w.Cfg.N) - 1)
+	for r := 0; r < rounds && w.Viol == nil && !w.AllDone(); r++ {
+		mask := laggardMask(w)
+		if mask == 0 {
+			return
+		}
+		var h, v uint64
+		for _, i := range w.CorrectLive() {
+			if mask>>uint(i)&1 == 1 {
+				h, v = w.Nodes[i].H(), w.Nodes[i].V()+1
+			}
+		}
+		w.Apply(sim.Action{K: "timeouts", Mask: mask})
+		if nl := w.LeaderIdx(h, v); w.IsByz(nl) {
+			preset := rapid.SampledFrom(nvPresets).Draw(t, "avc-preset")
+			w.Apply(sim.Action{K: "byz", N: 60, Byz: &sim.ByzSpec{Strat: "nv", As: nl, To: full, H: h, V: v, P: append([]int{}, preset...)}})
+			w.Apply(sim.Action{K: "byz", N: 100, Byz: &sim.ByzSpec{Strat: "support", As: nl, To: full, H: h, V: v, P: []int{0, 0}}})
+			continue
+		}
+		if rapid.IntRange(0, 3).Draw(t, "avc-votes") > 0 {
+			w.Apply(sim.Action{K: "byz", Byz: &sim.ByzSpec{Strat: "votes", As: as, To: full, H: h, V: v, P: []int{rapid.IntRange(0, 1).Draw(t, "avc-proof")}}})
+		}
+		w.Apply(sim.Action{K: "run", N: 100})
+		if rapid.IntRange(0, 3).Draw(t, "avc-follow") > 0 {
+			w.Apply(sim.Action{K: "byz", N: 100, Byz: &sim.ByzSpec{Strat: "follow", As: as, To: full, H: h, V: v, P: []int{0, rapid.IntRange(0, 1).Draw(t, "avc-commits-only")}}})
+		}
+	}
+}
+
 // traceSig abstracts a run into its distinctness signature: config class + sequence of (action kind, strategy).
 func traceSig(w *sim.World) uint64 {
 	h := fnv.New64a()
@@ -305,34 +349,21 @@ func runSimCaseWith(t *rapid.T, o simOpts, setup func(*sim.World)) *sim.World {
 		if rapid.Bool().Draw(t, "eq-run-first") {
 			w.Apply(sim.Action{K: "run", N: rapid.SampledFrom([]int{3, 10, 40}).Draw(t, "eq-run")})
 		}
-		// partial progress: some message class never reaches some members (lost for good), so that one member can commit alone while
-		// others are left unprepared and go through a view change
-		eqHeld := rapid.IntRange(0, 2).Draw(t, "eq-hold?") > 0
-		if eqHeld {
-			for k := rapid.IntRange(1, 2).Draw(t, "eq-holds"); k > 0; k-- {
-				hr := sim.HoldRule{Types: uint8(rapid.SampledFrom([]int{1 << sim.UC, 1 << sim.UC, 1 << sim.UP, 1<<sim.UP | 1<<sim.UC}).Draw(t, "eq-hold-types")),
-					To: uint16(rapid.IntRange(1, int(full)).Draw(t, "eq-hold-to")), From: 0xffff}
-				if rapid.Bool().Draw(t, "eq-hold-from?") {
-					hr.From = uint16(rapid.IntRange(1, int(full)).Draw(t, "eq-hold-from"))
-				}
-				w.Apply(sim.Action{K: "hold", Hold: &hr})
-			}
+		// partial progress: per member, some message classes are lost for good during this phase (one member sees everything and
+		// may finish alone, another sees the PREPAREs but no COMMITs, a third nothing at all ...); afterwards assisted view changes
+		lossy := rapid.IntRange(0, 2).Draw(t, "eq-lossy?") > 0
+		if lossy {
+			applyLossProfiles(t, w)
 		}
 		for k := rapid.IntRange(1, 2).Draw(t, "eq-supports"); k > 0; k-- {
 			w.Apply(sim.Action{K: "byz", N: rapid.SampledFrom([]int{0, 20, 100}).Draw(t, "eq-then"), Byz: &sim.ByzSpec{Strat: "support", As: l,
 				To: uint16(rapid.IntRange(1, int(full)).Draw(t, "eq-support-to")), H: 1, V: 0, P: []int{rapid.IntRange(0, 1).Draw(t, "eq-which"), rapid.IntRange(0, 1).Draw(t, "eq-commits-only")}}})
 		}
-		w.Apply(sim.Action{K: "run", N: 100})
-		if eqHeld {
+		w.Apply(sim.Action{K: "run", N: 200})
+		if lossy {
 			w.Apply(sim.Action{K: "dropheld"})
 			w.Apply(sim.Action{K: "release"})
-			for r := rapid.IntRange(1, 3).Draw(t, "eq-view-changes"); r > 0 && w.Viol == nil; r-- {
-				w.Apply(sim.Action{K: "timeouts", Mask: laggardMask(w)})
-				w.Apply(sim.Action{K: "run", N: rapid.SampledFrom([]int{20, 100}).Draw(t, "eq-vc-run")})
-				if rapid.IntRange(0, 2).Draw(t, "eq-vc-support") == 0 {
-					w.Apply(sim.Action{K: "byz", N: 60, Byz: &sim.ByzSpec{Strat: "support", As: l, To: full, H: 1, V: 0, P: []int{0, 0}}})
-				}
-			}
+			assistedViewChanges(t, w, l, rapid.IntRange(1, 4).Draw(t, "eq-view-changes"))
 		}
 	} else if l := w.LeaderIdx(1, 0); w.IsByz(l) && rapid.IntRange(0, 9).Draw(t, "template?") < 4 {
 		usedTemplate = true
@@ -369,6 +400,19 @@ func runSimCaseWith(t *rapid.T, o simOpts, setup func(*sim.World)) *sim.World {
 			w.Apply(sim.Action{K: "run", N: 60}) // a correct leader's view: let it try, unless everything is held
 		}
 		w.Apply(sim.Action{K: "release"})
+	}
+	// lossy first phase with any leader, then assisted view changes (needs a Byzantine member to assist)
+	if !usedTemplate && len(cfg.Byz) > 0 && rapid.IntRange(0, 9).Draw(t, "lossy-phase?") < 2 {
+		usedTemplate = true
+		applyLossProfiles(t, w)
+		if rapid.Bool().Draw(t, "lp-follow") {
+			w.Apply(sim.Action{K: "run", N: 30})
+			w.Apply(sim.Action{K: "byz", Byz: &sim.ByzSpec{Strat: "follow", As: cfg.Byz[0], To: uint16(rapid.IntRange(1, 1<<uint(cfg.N)-1).Draw(t, "lp-follow-to")), H: 1, V: 0, P: []int{0, 0}}})
+		}
+		w.Apply(sim.Action{K: "run", N: 200})
+		w.Apply(sim.Action{K: "dropheld"})
+		w.Apply(sim.Action{K: "release"})
+		assistedViewChanges(t, w, cfg.Byz[0], rapid.IntRange(1, 4).Draw(t, "lp-view-changes"))
 	}
 	// prelude: the classic attack shape "some message class is delayed to some nodes, the rest runs, some nodes time out"
 	if !usedTemplate && rapid.IntRange(0, 9).Draw(t, "prelude?") < 6 {
